@@ -11,6 +11,7 @@ pub mod c08;
 pub mod c10;
 pub mod c11;
 pub mod c13;
+pub mod c13b;
 pub mod c15;
 pub mod c16;
 pub mod c17;
